@@ -106,7 +106,8 @@ PROPS["C05"] = dict(
           "(c) over the websocket transport (both subprotocols, queries and subscriptions): at every cancellation point the client stops the "
           "operation, goes away, or the server context is cancelled - or the operation completes and is stopped afterwards, optionally with "
           "another operation started right behind - then the session ends: Websocket.Do returns and nothing of the connection stays alive."
-          " Half of the operations also meet failing user code while they run (resolver errors and panics, list elements of abstract type that no implementor matches, under every worker limit).",
+          " Half of the operations also meet failing user code while they run (resolver errors and panics, list elements of abstract type that no implementor matches, under every worker limit)."
+          " A dedicated generator (TestForeignElements) puts one to three Go values that no implementor matches into lists of abstract type: the generated type switch panics inside the element's goroutine and worker slot, and the operation still has to end by itself under every worker limit.",
     note="cancellation points are exhaustive per operation, operations are sampled (probe schema and random schemas drawn for the seed); "
          "bounded time is only refuted by deadlock witnesses; websocket sessions over arbitrary message sequences are C11's; here one operation per connection is driven through its cancellation points",
     technique="fault enumeration over cancellation points of rapid-generated operations; invariant oracle over goroutine dumps",
@@ -398,7 +399,8 @@ PROPS["C18"] = dict(
           "file must be identical across all runs, so regeneration on a freshly generated tree is a no-op."
           " A third of the multi-file projects keep their schema files under one base name in different directories (merged into one generated file by the follow-schema layouts), each file declaring directives of executable locations."
           " A third of the projects generate models into a package of their own; half of those list the exec package in autobind and may name schema types like exported identifiers of the exec file (Config, ResolverRoot, ...)."
-          " A quarter of the projects are a federation subgraph with @requires fields, two thirds of them with explicit_requires (federation.requires.go is read back on the next run).",
+          " A quarter of the projects are a federation subgraph with @requires fields, two thirds of them with explicit_requires (federation.requires.go is read back on the next run)."
+          " Schemas with object-literal defaults get six more clean-tree runs (small Go maps iterate as a rotation, so a missing sort shows only in some processes); the corpus pins a schema whose object literals have eight fields.",
     note="map-order bugs surface with probability < 1 per run; five fresh processes per project bound the miss probability, they do not remove it",
     technique="metamorphic property testing (rapid): repeated generation in separate processes, hash-equality oracle",
     rule="evaluation = one generator run; a project is non-trivial if it has >=2 schema files and a follow-schema layout (exec or resolver); "
